@@ -46,17 +46,18 @@ Theorem C11_map_name_fuel : forall cs ns src b fuel,
 Proof. exact map_name_fuel. Qed.
 Print Assumptions C11_map_name_fuel.
 
-(* Contraction: only the cell ns of every class row changes, to its innermost simple name *)
+(* Contraction: only the cell ns of every class row changes, to its innermost simple name;
+   an unknown namespace and the first namespace (whose names are the map keys) are refused *)
 Theorem C11_contract_spec : forall M name,
   (forall M', contract M name = Ok M' ->
-     exists ns, ns_index (ms_ns M) name = Some ns /\ contract_rel M ns M') /\
-  (contract M name = Err <-> ns_index (ms_ns M) name = None).
+     exists ns, ns_index (ms_ns M) name = Some ns /\ ns <> O /\ contract_rel M ns M') /\
+  (contract M name = Err <-> ns_index (ms_ns M) name = None \/ ns_index (ms_ns M) name = Some O).
 Proof. exact contract_spec. Qed.
 Print Assumptions C11_contract_spec.
 
 (* Contracting an extended set returns the original (equal, same order) when names are simple *)
 Theorem C11_contract_extend : forall M name ns M',
-  ns_index (ms_ns M) name = Some ns -> simple_names M ns = true ->
+  ns_index (ms_ns M) name = Some ns -> ns <> O -> simple_names M ns = true ->
   extend M name = Ok M' -> contract M' name = Ok M.
 Proof. exact contract_extend. Qed.
 Print Assumptions C11_contract_extend.
@@ -83,3 +84,30 @@ Print Assumptions C11_extend_err_iff_gen.
 Theorem C11_extend_first_namespace : forall M, ms_classes M <> [] -> extend_idx M O = Err.
 Proof. exact extend_first_namespace. Qed.
 Print Assumptions C11_extend_first_namespace.
+
+(* closed form at any nesting depth: the extended name is m0$m1$...$mk$b where m0..mk are the
+   names in ns of the outer classes, outermost first (Chain follows the source name's splits) *)
+Theorem C11_extended_name_closed_form : forall cs ns src b r,
+  Ext cs ns src b r <-> exists ms, Chain cs ns src ms /\ r = join_dollar (ms ++ [b]).
+Proof. exact Ext_chain. Qed.
+Print Assumptions C11_extended_name_closed_form.
+
+(* both operations keep the tree well-formed and every class under its key *)
+Theorem C11_extend_preserves_wf : forall M ns M',
+  wf M = true -> extend_idx M ns = Ok M' ->
+  wf M' = true /\ map class_key (ms_classes M') = map class_key (ms_classes M).
+Proof. exact extend_idx_wf. Qed.
+Print Assumptions C11_extend_preserves_wf.
+
+Theorem C11_contract_preserves_wf : forall M ns,
+  wf M = true -> ns <> O ->
+  wf (contract_idx M ns) = true /\
+  map class_key (ms_classes (contract_idx M ns)) = map class_key (ms_classes M).
+Proof. exact contract_idx_wf. Qed.
+Print Assumptions C11_contract_preserves_wf.
+
+(* non-vacuity (the repository's fixture plus a depth-4 chain satisfies every hypothesis and is
+   really rewritten), the failure cases, and necessity of simple_names for the inverse law *)
+Theorem C11_examples : examples.
+Proof. exact examples_hold. Qed.
+Print Assumptions C11_examples.
